@@ -86,6 +86,7 @@ def units(ctx, which):
     for K in (3, 4):
         for part in range(8 if ctx.thorough else 4):
             us.append(("auer_het", K, part, 8 if ctx.thorough else 4, ctx.seed, ctx.thorough, which))
+    us.append(("sens3", which, ctx.thorough))
     n_iv = len(INTERVALS) if ctx.thorough else 5
     for alg, spec in ([("EpsilonPAL", None)] + ([("VOGP", ("comp", 2)), ("VOGP", ("theta", 60)), ("PaVeBaGP-IH", ("comp", 2))] if ctx.thorough else [("VOGP", ("theta", 60))])):
         for first in range(n_iv * n_iv):
@@ -235,10 +236,11 @@ def run_os(unit, res, only=None):
 # three designs with clearly different widths: rectangles = products of intervals from a small
 # interval alphabet (wide / tight / tiny / shifted), all three in S (thorough: also one in P)
 
-# chosen with the reference-level vacuity probe of DESIGN 2.7: the first four already contain 162 triples on
-# which "P-entry against the pre-discarding active set" differs from the reference (a family without
-# the wide interval [0,3] contains none)
-INTERVALS = [(0.0, 1.0), (0.5, 0.55), (0.0, 3.0), (0.5, 1.0), (1.0, 2.0), (0.25, 1.0)]
+# chosen with the reference-level vacuity probe of DESIGN 2.7 (run_sens3 below): on the first five every reference
+# mutant changes outcomes (720 / 5576 / 12217 / 1072 / 2475 of 15625 triples); a family without the wide
+# interval [0,3] is blind to "P-entry against the pre-discarding active set", one without a 0.7-long interval
+# is blind to a slack scaled by 1.3
+INTERVALS = [(0.0, 1.0), (0.5, 0.55), (0.0, 3.0), (0.5, 1.0), (0.3, 1.0), (1.0, 2.0)]
 
 
 def run_os3(unit, res, only=None):
@@ -272,6 +274,58 @@ def run_os3(unit, res, only=None):
                         return
     res["states"] += n
     res["samples"].append({"alg": alg_name, "cone": _cn(spec, m), "K": 3, "eps": eps, "interval_alphabet": [list(i) for i in ivs], "first_rectangle": first, "triples": n})
+
+
+# ---------------------------------------------------------------------------------------------
+# vacuity guard (DESIGN 2.7): reference-level mutants over the three-design family.  No library code
+# runs here: the reference transition and deliberately wrong variants of it are evaluated on every
+# triple of the family; a variant that never changes an outcome means the family is blind to the
+# corresponding class of code changes, and the check refuses to run (harness error).
+
+REF_MUTANTS = ["p-entry against pre-discarding set", "slack x1.3", "slack dropped", "witnesses from all active (not only pessimistic)",
+               "candidate's own region used as coverer too"]
+
+
+def run_sens3(unit, res):
+    _, which, thorough = unit
+    W = np.eye(2)
+    eps = 0.6
+    ivs = INTERVALS if thorough else INTERVALS[:5]
+    rects = [("rect", np.array([a[0], b[0]]), np.array([a[1], b[1]])) for a in ivs for b in ivs]
+    tau = 1e-6
+    diff = {k: 0 for k in REF_MUTANTS}
+    n = 0
+
+    def outcome(regs, slack, pre_discard=False, all_witness=False, self_cover=False):
+        W0 = {0, 1, 2}
+        pess = {i for i in W0 if reference.exists3(reference.pess3(W, regs[j], regs[i], tau) for j in W0 if j != i) == -1}
+        wit = W0 if all_witness else pess
+        disc = {i for i in W0 - pess if reference.exists3(reference.dominated3(W, regs[i], regs[j], slack, tau) for j in wit if j != i) == 1}
+        S1 = W0 - disc
+        cmp = W0 if pre_discard else S1
+        ent = {i for i in S1 if reference.exists3(reference.covered3(W, regs[i], regs[j], slack, tau) for j in cmp if (self_cover or j != i)) == -1}
+        return (frozenset(disc), frozenset(ent))
+
+    for tri in itertools.product(range(len(rects)), repeat=3):
+        regs = {i: rects[t] for i, t in enumerate(tri)}
+        s0 = np.full(2, eps)
+        base = outcome(regs, s0)
+        n += 1
+        if outcome(regs, s0, pre_discard=True) != base:
+            diff[REF_MUTANTS[0]] += 1
+        if outcome(regs, s0 * 1.3) != base:
+            diff[REF_MUTANTS[1]] += 1
+        if outcome(regs, s0 * 0.0) != base:
+            diff[REF_MUTANTS[2]] += 1
+        if outcome(regs, s0, all_witness=True) != base:
+            diff[REF_MUTANTS[3]] += 1
+        if outcome(regs, s0, self_cover=True) != base:
+            diff[REF_MUTANTS[4]] += 1
+    res["evaluations"] += n
+    for k, v in diff.items():
+        core.bump(res, "sens3:" + k, v)
+    res["samples"].append({"reference_level_mutants_over_three_design_family": diff, "triples": n})
+    res["outcomes"].append("sens3")
 
 
 # ---------------------------------------------------------------------------------------------
@@ -444,6 +498,8 @@ def run_unit(unit):
         run_adref(unit, res)
     elif unit[0] == "os3":
         run_os3(unit, res)
+    elif unit[0] == "sens3":
+        run_sens3(unit, res)
     else:
         run_auer_het(unit, res)
     return res
